@@ -150,6 +150,13 @@ def writes_in(fn: ast.AST, names: Set[str]) -> List[Tuple[str, str, int]]:
     return out
 
 
+CONFIG_TEXT = {
+    "copy": "get_converter().copy()",
+    "prefer": "get_converter(cattrs.Converter(prefer_attrib_converters=True))",
+    "omitdefault": "get_converter(cattrs.Converter(omit_if_default=True))",
+}
+
+
 def main(argv: List[str]) -> int:
     run = Run("C19", "other", argv)
     n = ok = 0
@@ -270,11 +277,15 @@ def main(argv: List[str]) -> int:
             ob(True, "", "")
     # ------------------------------------------------------------------ (d) creation histories (bounded: length <= 2 over 4 configurations), subprocess-isolated
     kinds = ["fresh", "nodetail", "forbid", "custom", "fresh+hook", "lenient"]
+    same_as_fresh = ["copy", "prefer", "omitdefault"]  # configurations whose results must equal those of a fresh converter
     specs = [("alone", k, {"history": [k], "report": [0]}) for k in kinds]
     for a in kinds:
         for b in kinds:
             specs.append(("after", (a, b), {"history": [a, b], "report": [0, 1], "use_all": True}))
     specs.append(("count", "fresh", {"history": ["fresh"] * 5, "report": [0, 4], "use_all": True}))
+    for k in same_as_fresh:
+        specs.append(("config", k, {"history": [k], "report": [0]}))
+        specs.append(("config-after", k, {"history": ["fresh", k, "fresh"], "report": [1, 2], "use_all": True}))
     with cf.ThreadPoolExecutor(max_workers=12) as ex:
         results = list(ex.map(lambda s: probe(s[2]), specs))
     alone = {}
@@ -293,6 +304,10 @@ def main(argv: List[str]) -> int:
             a, b = k
             ob(r["1"] == alone.get(b), f"history:{b}-after-{a}", f"a '{b}' converter created after a '{a}' converter was created and used behaves differently from one created alone: {_first_delta(alone.get(b), r['1'])}", found=True, history=[a, b], replay=f"tools/c19_probe.py '{json.dumps(spec)}'")
             ob(r["0"] == alone.get(a), f"history:{a}-then-{b}-first", f"creating and using a '{b}' converter alters an existing '{a}' converter: {_first_delta(alone.get(a), r['0'])}", found=True, history=[a, b])
+        if kind == "config":
+            ob(r["0"] == alone.get("fresh"), f"config:{k}", f"a converter obtained as '{k}' ({CONFIG_TEXT[k]}) does not behave like a fresh get_converter(): {_first_delta(alone.get('fresh'), r['0'])}", found=True, configuration=k, replay=f"tools/c19_probe.py '{json.dumps(spec)}'")
+        if kind == "config-after":
+            ob(r["1"] == alone.get("fresh") and r["2"] == alone.get("fresh"), f"config:{k}:history", f"creating a '{k}' converter between two fresh ones changes a result: {_first_delta(alone.get('fresh'), r['1'] if r['1'] != alone.get('fresh') else r['2'])}", found=True, configuration=k)
         if kind == "count":
             ob(r["0"] == alone["fresh"] and r["4"] == alone["fresh"], "history:count", f"the fifth fresh converter differs from the first: {_first_delta(alone['fresh'], r['4'])}", found=True)
     # ------------------------------------------------------------------ (e) bounded schedule exploration: one pre-emption at the k-th line event inside lsprotocol (thorough: all points; quick: a sample)
@@ -328,7 +343,7 @@ def main(argv: List[str]) -> int:
             ob(True, "", "")
     run.assume(
         "thread clause: decided through the lock-ownership obligation on _resolve_forward_references (a sufficient condition) and the no-shared-mutable-state frame; schedules are explored only as single pre-emptions at line granularity (bounded, labelled); cattrs/attrs are assumed thread-safe outside the critical section",
-        "histories are explored up to length 2 over {fresh, detailed_validation=False, forbid_extra_keys=True, user converter with a custom hook, fresh converter customised after it was handed out, user converter with lenient enum hooks} plus five fresh converters (bounded)",
+        "histories are explored up to length 2 over {fresh, detailed_validation=False, forbid_extra_keys=True, user converter with a custom hook, fresh converter customised after it was handed out, user converter with lenient enum hooks} plus five fresh converters, and three configurations that must behave like a fresh converter: a `.copy()` of one, `prefer_attrib_converters=True`, `omit_if_default=True` (bounded)",
         "frame obligations are structural facts about the source (no writes to module-level state, no shared mutable captured by hooks)",
     )
     return run.finish(
